@@ -31,7 +31,10 @@ type Monitors struct {
 	// created[pod key] = inputs digest at creation (C10 spurious replace)
 	created map[string]*podInputs
 	// failedByCmd[rs key]: Canary-Failed was set by a successful kubectl-eds canary fail
-	failedByCmd   map[string]bool
+	failedByCmd map[string]bool
+	// heldByCmd["ns/name|frozen"] / ["ns/name|paused"]: the annotation was last set by a successful kubectl-eds
+	// freeze-rollout / pause-rolling-update (cleared by the opposite command)
+	heldByCmd     map[string]bool
 	templateEdits map[string]int
 	// Disabled rules (prefix match), e.g. when a workload deliberately breaks a premise
 	Disabled map[string]bool
@@ -48,7 +51,7 @@ var safetyProps = map[string]bool{"C01": true, "C03": true, "C04": true, "C05": 
 
 // NewMonitors builds the monitor set.
 func NewMonitors(w *World) *Monitors {
-	return &Monitors{w: w, lastAction: map[string]time.Time{}, failedAt: map[string]time.Time{}, created: map[string]*podInputs{}, failedByCmd: map[string]bool{}, templateEdits: map[string]int{}, Disabled: map[string]bool{}}
+	return &Monitors{w: w, lastAction: map[string]time.Time{}, failedAt: map[string]time.Time{}, created: map[string]*podInputs{}, failedByCmd: map[string]bool{}, heldByCmd: map[string]bool{}, templateEdits: map[string]int{}, Disabled: map[string]bool{}}
 }
 
 func (m *Monitors) viol(prop, rule string, attrs map[string]string, inv *simapi.Invocation, detail map[string]any) {
@@ -106,7 +109,30 @@ func (m *Monitors) OnCommand(cmd, ns, name string, inv *simapi.Invocation, err e
 			m.failedByCmd[ns+"/"+e.Status.Canary.ReplicaSet] = true
 		}
 	}
+	if err == nil {
+		switch cmd {
+		case "freeze-rollout":
+			m.heldByCmd[ns+"/"+name+"|frozen"] = true
+		case "unfreeze-rollout":
+			delete(m.heldByCmd, ns+"/"+name+"|frozen")
+		case "pause-rolling-update":
+			m.heldByCmd[ns+"/"+name+"|paused"] = true
+		case "unpause-rolling-update":
+			delete(m.heldByCmd, ns+"/"+name+"|paused")
+		}
+	}
 	m.stickyFailed(inv)
+}
+
+// heldInterpreted: C19 "the controller's next reconciles interpret them as documented" for freeze-rollout and
+// pause-rolling-update: a sync that read the annotation a successful command set and still creates (frozen) or
+// deletes for updating (paused, frozen) does not.
+func (m *Monitors) heldInterpreted(eds *v1.ExtendedDaemonSet, what, did string, inv *simapi.Invocation, d map[string]any) {
+	if eds == nil || !m.heldByCmd[eds.Namespace+"/"+eds.Name+"|"+what] {
+		return
+	}
+	cmd := map[string]string{"frozen": "freeze-rollout", "paused": "pause-rolling-update"}[what]
+	m.viol("C19", "C19.hold-interpreted-as-documented", map[string]string{"command": cmd, "did": did}, inv, d)
 }
 
 // stickyFailed (store level, any actor): a write that takes Canary-Failed=True away from a replica
@@ -118,6 +144,15 @@ func (m *Monitors) stickyFailed(inv *simapi.Invocation) {
 			continue
 		}
 		pre, post := c.Pre.(*v1.ExtendedDaemonSetReplicaSet), c.Post.(*v1.ExtendedDaemonSetReplicaSet)
+		// C05: the promotion rule measures noRestartsDuration from the last canary pod restart the replica set has
+		// recorded (Pod-Restarting condition, last update): a restart that happened does not un-happen when its pod
+		// goes away, so the recorded instant never moves backwards while the condition stays
+		if a, b := kit.Cond(&pre.Status, v1.ConditionTypePodRestarting), kit.Cond(&post.Status, v1.ConditionTypePodRestarting); a != nil && b != nil && a.Status == corev1.ConditionTrue && b.Status == corev1.ConditionTrue {
+			m.w.Ctx.Count("C05.sim-restart-records-judged")
+			if b.LastUpdateTime.Time.Before(a.LastUpdateTime.Time) {
+				m.viol("C05", "C05.last-restart-forgotten", map[string]string{"sim": "true"}, inv, map[string]any{"rs": pre.Name, "recorded-before": a.LastUpdateTime.Time.UTC().Format(time.RFC3339), "recorded-after": b.LastUpdateTime.Time.UTC().Format(time.RFC3339), "callsite": c.Callsite})
+			}
+		}
 		if !oracle.RSCond(pre, v1.ConditionTypeCanaryFailed) {
 			continue
 		}
@@ -434,6 +469,7 @@ func (m *Monitors) onERS(inv *simapi.Invocation, out kit.Outcome) {
 			// C08: freeze / canary pause
 			if role == "active" && v.EDS.Annotations[v1.ExtendedDaemonSetRolloutFrozenAnnotationKey] == "true" {
 				m.viol("C08", "C08.frozen-no-create", nil, inv, d)
+				m.heldInterpreted(v.EDS, "frozen", "create", inv, d)
 			}
 			if role == "canary" && canaryPausedAsRead(v) {
 				m.viol("C08", "C08.canary-paused-no-create", nil, inv, d)
@@ -585,7 +621,23 @@ func (m *Monitors) onERS(inv *simapi.Invocation, out kit.Outcome) {
 	}
 
 	if role == "active" && v.HasPods && !invFaulted(inv) {
-		m.budget(inv, v, podsByNode, updateDeletes, eligible)
+		// "only the clean-up of duplicate pods and of pods on no-longer-eligible nodes is outside the budget": a
+		// deletion of the one scheduled, running pod of a node the replica set targets is a deletion for updating
+		// whichever helper issues it, and counts towards the budget and the cap
+		forUpdate := append([]*simapi.Call{}, updateDeletes...)
+		for _, c := range cleanupDeletes {
+			if c.Pre == nil {
+				continue
+			}
+			p := c.Pre.(*corev1.Pod)
+			node := kit.NodeOfPod(p)
+			if node == "" || !eligible(node) || v.Canary[node] || p.Spec.NodeName == "" || p.Status.Phase != corev1.PodRunning || len(podsByNode[node]) != 1 || p.DeletionTimestamp != nil {
+				continue
+			}
+			ctx.Count("C03.sim-clean-up-deletes-counted-as-update")
+			forUpdate = append(forUpdate, c)
+		}
+		m.budget(inv, v, podsByNode, forUpdate, eligible)
 	}
 	// C04 label-on: a canary-role sync makes sure its own pod on each canary node carries the canary label
 	if role == "canary" && managed {
@@ -633,9 +685,11 @@ func (m *Monitors) onERS(inv *simapi.Invocation, out kit.Outcome) {
 	// C08 paused: no update deletions
 	if role == "active" && v.EDS.Annotations[v1.ExtendedDaemonSetRollingUpdatePausedAnnotationKey] == "true" && len(updateDeletes) > 0 {
 		m.viol("C08", "C08.paused-no-update-delete", nil, inv, nil)
+		m.heldInterpreted(v.EDS, "paused", "delete-for-update", inv, nil)
 	}
 	if role == "active" && v.EDS.Annotations[v1.ExtendedDaemonSetRolloutFrozenAnnotationKey] == "true" && len(updateDeletes) > 0 {
 		m.viol("C08", "C08.frozen-no-update-delete", nil, inv, nil)
+		m.heldInterpreted(v.EDS, "frozen", "delete-for-update", inv, nil)
 	}
 	// the same through the clean-up path: while paused or frozen, deleting the one live pod of a node the replica
 	// set targets is an update deletion whatever helper issues it (duplicates, Failed pods and pods on nodes that
@@ -1348,6 +1402,34 @@ func (m *Monitors) onEDS(inv *simapi.Invocation, out kit.Outcome) {
 			seen[n] = true
 			if !prev[n] {
 				added++
+			}
+		}
+		// C15: "nodes selected earlier that are still valid are kept" - whatever made the reconcile rewrite the list
+		// (more replicas, another template edit, the canary replica set re-created): a node of the list it read that
+		// still exists, is eligible and matches the canary node selector must be in the list it writes
+		if len(prev) > 0 {
+			var ksel labels.Selector
+			if ns := v.EDS.Spec.Strategy.Canary.NodeSelector; ns != nil {
+				if sel, err := metav1.LabelSelectorAsSelector(ns); err == nil {
+					ksel = sel
+				}
+			}
+			for name := range prev {
+				if seen[name] {
+					continue
+				}
+				o := m.w.S.Peek(simapi.KindNode, "", name)
+				if o == nil {
+					continue
+				}
+				node := o.(*corev1.Node)
+				if !oracle.Eligible(node, &v.EDS.Spec.Template.Spec) || (ksel != nil && !ksel.Matches(labels.Set(node.Labels))) {
+					continue
+				}
+				ctx.Count("C15.sim-dropped-nodes-judged")
+				m.viol("C15", "C15.stable", map[string]string{"sim": "true", "canary-replicaset-changed": fmt.Sprint(v.EDS.Status.Canary.ReplicaSet != written.Status.Canary.ReplicaSet)}, inv,
+					map[string]any{"dropped": name, "before": v.EDS.Status.Canary.Nodes, "after": written.Status.Canary.Nodes})
+				break
 			}
 		}
 		if added > 0 {
